@@ -37,7 +37,9 @@ def gen_join_case(rng):
         c = rng.choice(['k1', 'k2', 'id'])
         p = c if (same and rng.random() < 0.5) else rng.choice([x for x in pc if x in ('k1', 'k2', 'id', 'pid')])
         conds.append([c, p])
-    if same and nconds >= 2 and rng.random() < 0.4:
+    if same and rng.random() < 0.12:
+        conds = []              # no join condition over the same logical table: the parent's subject term of the same row
+    if same and nconds >= 2 and conds and rng.random() < 0.4:
         # a permutation: every column appears on both sides, but not paired with itself
         a, b = rng.sample(['k1', 'k2', 'id'], 2)
         conds = [[a, b], [b, a]] + conds[2:]
